@@ -34,7 +34,7 @@ VARIABLES l, cid, viol, nviol, ndiv, divs, dflag, ncases, nunwrapped, nouter, nr
 tvars == <<vars, l, cid, viol, nviol, ndiv, divs, dflag, ncases, nunwrapped, nouter, nreconf, nprevown>>
 
 TInit ==
-    /\ Init /\ gen = "v2" /\ jidcfg = "plain"
+    /\ Init /\ gen = "v2" /\ jidcfg = "plain" /\ estab = "configured"
     /\ l = 1 /\ cid = "" /\ viol = {} /\ nviol = 0 /\ ndiv = 0 /\ divs = <<>> /\ dflag = FALSE /\ ncases = 0
     /\ nunwrapped = 0 /\ nouter = 0 /\ nreconf = 0 /\ nprevown = 0
 
@@ -87,7 +87,7 @@ ModelAct(ev) ==
       [] OTHER                -> FALSE
 
 ResetStep(ev) ==
-    /\ Reinit(ev.gen, ev.jidcfg)
+    /\ Reinit(ev.gen, ev.jidcfg, IF "estab" \in DOMAIN ev THEN ev.estab ELSE "configured")
     /\ cid' = ev.case /\ dflag' = FALSE /\ ncases' = ncases + 1
     /\ UNCHANGED <<viol, nviol, ndiv, divs, nunwrapped, nouter, nreconf, nprevown>>
 
@@ -96,9 +96,9 @@ OpStep(ev) ==
        \/ (~ENABLED ModelAct(ev)) /\ UNCHANGED vars
     \* one record per (property, generation, sender class, wrapper): the first line that shows it
     /\ viol' = viol \cup {[case |-> cid, line |-> l, prop |-> p, gen |-> gen, c |-> ev.c, w |-> ev.w, i |-> ev.i,
-                            own |-> jidcfg, how |-> lasthow] :
+                            own |-> jidcfg, how |-> lasthow, estab |-> estab] :
                               p \in {q \in Failed(ev) : ~\E v \in viol : v.prop = q /\ v.gen = gen /\ v.c = ev.c /\ v.w = ev.w
-                                                                           /\ v.how = lasthow}}
+                                                                           /\ v.how = lasthow /\ v.estab = estab}}
     /\ nviol' = nviol + Cardinality(Failed(ev))
     /\ nunwrapped' = nunwrapped + (IF ObsWhat(ev) = "inner" THEN 1 ELSE 0)
     /\ nprevown' = nprevown + (IF ev.c = "PreviousOwnBare" /\ IsCarbon(ev.w) THEN 1 ELSE 0)
